@@ -217,8 +217,11 @@ c.ensures("implies(bytes != _zero_bytes, spec.ed_view(result) == spec.ed_aff(spe
 
 c = REG.contract(M + "bytes_to_element")
 c.params(bytes="bytes").returns("obj:" + ELT).pure()
-c.may_raise("ValueError", "NotOnCurve")
+c.raises("Exception", "not spec.ed_decodable(bytes)", name="undecodable", tags="C05 C15 C01")
+c.lemma("entry", "ed_decode_complete", "bytes", "spec.ed_decode_xy(bytes)[0]", "spec.ed_decode_xy(bytes)[1]")
 c.lemma("after:P", "ed_insub_def", "spec.ed_view(P)")
+c.hint("entry", "spec.ed_enc(spec.ed_O()) == _zero_bytes", name="zero-bytes-encode-the-identity")
+c.hint("after:P", "spec.ed_decodable_intro(spec.ed_view(P), bytes)", name="definition-of-decodable")
 c.ensures("len(bytes) == 32", name="exact-length", tags="C05 C02")
 c.ensures("spec.ed_enc(spec.ed_view(result)) == bytes", name="canonical", tags="C05 C02 C15")
 c.ensures("spec.ed_decodable_intro(spec.ed_view(result), bytes) and spec.ed_decodable(bytes) and spec.ed_view(result) == spec.dec(Ed25519Group, bytes)", name="strict", tags="C05 C02")
@@ -264,11 +267,7 @@ c.params(self="obj:" + GRP, seed="bytes").returns("obj:" + ELT).pure().refines("
 c.ensures("spec.ed_view(result) == spec.ed_ae(seed)", name="val", tags="C14 C03")
 
 c = REG.contract(GRP + ".bytes_to_element")
-c.params(self="obj:" + GRP, b="bytes").returns("obj:" + ELT).pure()
-c.may_raise("ValueError", "NotOnCurve")
+c.params(self="obj:" + GRP, b="bytes").returns("obj:" + ELT).pure().refines("GroupSpec.bytes_to_element")
 c.ensures("spec.decodable(self, b)", name="strict", tags="C05 C02")
-c.ensures("result._g is self", name="refines:group", tags="REFINE")
-c.ensures("result._v == spec.dec(self, b)", name="refines:val", tags="REFINE C05")
-REG.impls.setdefault("GroupSpec.bytes_to_element", []).append(GRP + ".bytes_to_element")
 
 vc.INLINE_OK |= {GRP + ".order"}
